@@ -252,7 +252,7 @@ fn judge_request(rep: &Reporter, prefix: &str, list: &[&'static str], entries: &
 
 pub fn check(rep: &Reporter) {
 	rep.set_rule(&format!(
-		"allow-lists = the empty list and all lists of 1 or 2 entries (both orders; thorough: also every 3-entry combination) over {} patterns (those HostFilterLayer::new accepts) × Host header strings = {} schemes × {} hosts × {} userinfo forms × {} port forms, plus control/non-ASCII values × header multiplicity {{1, 0, 2}} × request-target {{origin form, absolute same authority, absolute other authority, absolute with explicit default port}}. plus allow-lists given as SocketAddr values (IPv4 and IPv6, 1–2 entries) × 14 Host values; plus an SRV-TCP leg: the layer as HTTP middleware of Server::start, the empty and the single-entry lists × scheme-less Host values × request-target forms as raw HTTP/1.1 over loopback. Oracle: independent RFC-3986 authority split + label/port matcher written from the statement; a case is non-trivial when the layer was actually invoked (header constructible); distinct by (list, header, multiplicity, target).",
+		"allow-lists = the empty list and all lists of 1 or 2 entries (both orders; thorough: also every 3-entry combination) over {} patterns (those HostFilterLayer::new accepts) × Host header strings = {} schemes × {} hosts × {} userinfo forms × {} port forms, plus control/non-ASCII values × header multiplicity {{1, 0, 2}} × request-target {{origin form, absolute same authority, absolute other authority, absolute with explicit default port}}. plus allow-lists given as SocketAddr values (IPv4 and IPv6, 1–2 entries) × 14 Host values; plus an SRV-TCP leg: the layer as HTTP middleware of Server::start, the empty and the single-entry lists × scheme-less Host values × request-target forms as raw HTTP/1.1 over loopback, and the same lists × authorities over HTTP/2 (prior knowledge; :authority only, :authority plus an equal Host header, another :authority plus the Host header). Oracle: independent RFC-3986 authority split + label/port matcher written from the statement; a case is non-trivial when the layer was actually invoked (header constructible); distinct by (list, header, multiplicity, target).",
 		PATTERNS.len(),
 		SCHEMES.len(),
 		HOSTS.len(),
@@ -489,6 +489,78 @@ pub fn check(rep: &Reporter) {
 				let (class, _case) = judge_request(rep, "tcp:", &lists[li], entries, &seen, 1, uk, &uri, &uri_p, status, called);
 				local.case_unique(&format!("tcp:{class}:{status}"));
 			}
+			let _ = handle.stop();
+			let _ = rt.block_on(async { tokio::time::timeout(std::time::Duration::from_secs(10), handle.stopped()).await });
+		});
+
+		// ---- the same deployment spoken to over HTTP/2 (prior knowledge): the authority travels as `:authority`
+		//      (it becomes the request URI's authority on the server), a Host header is optional and may disagree
+		let h2_modes: [&str; 3] = ["authority-only", "authority+same-host", "other-authority+host"];
+		rep.extra("h2_leg_requests", json!(singles.len() * hdrs.len() * h2_modes.len()));
+		par_for(rep, singles.len(), 1, crate::srv::rt, |w, rt, local| {
+			let li = singles[w];
+			let Some((_, entries)) = &built[li] else { return };
+			let log: crate::srv::InvLog = Default::default();
+			let _e = rt.enter();
+			let listener = std::net::TcpListener::bind("127.0.0.1:0").expect("bind loopback");
+			listener.set_nonblocking(true).unwrap();
+			let addr = listener.local_addr().unwrap();
+			let layer = HostFilterLayer::new(lists[li].iter().copied()).expect("accepted before");
+			let server = jsonrpsee_server::Server::builder().set_http_middleware(tower::ServiceBuilder::new().layer(layer)).build_from_tcp(listener).expect("server");
+			let handle = server.start(crate::srv::std_module(log.clone()));
+			let mut conn: Option<crate::srv::H2Conn> = None;
+			for hv in &hdrs {
+				let Ok(hstr) = std::str::from_utf8(hv) else { continue };
+				// only values that are an authority for the `http` crate can be put into `:authority`
+				let Ok(own) = format!("http://{hstr}/").parse::<http::Uri>() else { continue };
+				if own.authority().map(|a| a.as_str()) != Some(hstr) {
+					continue;
+				}
+				for mode in h2_modes {
+					let (uri, host, mult, uk) = match mode {
+						"authority-only" => (format!("http://{hstr}/"), None, 0usize, UriKind::AbsSame),
+						"authority+same-host" => (format!("http://{hstr}/"), Some(hstr), 1, UriKind::AbsSame),
+						_ => ("http://example.com:8080/rpc".to_string(), Some(hstr), 1, UriKind::AbsOther),
+					};
+					let Ok(uri_p) = uri.parse::<http::Uri>() else { continue };
+					log.lock().unwrap().clear();
+					let mut resp = None;
+					for _attempt in 0..3 {
+						if conn.is_none() {
+							conn = rt.block_on(crate::srv::h2_connect(addr)).ok();
+						}
+						let Some(c) = conn.as_mut() else { continue };
+						let mut b = http::Request::builder().method("POST").uri(uri.as_str()).header("content-type", "application/json");
+						if let Some(h) = host {
+							b = b.header("host", h);
+						}
+						let Ok(req) = b.body(crate::srv::FramesBody::single(BODY)) else { break };
+						match rt.block_on(async { tokio::time::timeout(std::time::Duration::from_secs(10), c.request(req)).await }) {
+							Ok(Ok(o)) => {
+								resp = Some(o.status);
+								break;
+							}
+							_ => conn = None,
+						}
+					}
+					let Some(status) = resp else {
+						rep.machinery_error(format!("SRV-TCP HTTP/2 leg: no response for authority {hstr:?} ({mode})"));
+						continue;
+					};
+					let called = log.lock().unwrap().len();
+					let (class, case) = judge_request(rep, "h2:", &lists[li], entries, if mult == 0 { b"" } else { hv.as_slice() }, mult, uk, &uri, &uri_p, status, called);
+					// completeness over HTTP/2: the only entry matches the (single, plain) authority of the request
+					if mode != "other-authority+host" && lists[li].len() == 1 && called == 0 {
+						if let Some(a) = ref_parse(hstr) {
+							if a.plain && !a.userinfo && a.port != RPort::Any && entries.iter().flatten().any(|e| entry_matches(e, &a)) {
+								rep.violation("h2:matching-authority-rejected", &format!("allow-list {:?}: HTTP/2 request with :authority {hstr:?} ({mode}) matches the only entry but got {status}", lists[li]), case.clone());
+							}
+						}
+					}
+					local.case_unique(&format!("h2:{mode}:{class}:{status}"));
+				}
+			}
+			drop(conn);
 			let _ = handle.stop();
 			let _ = rt.block_on(async { tokio::time::timeout(std::time::Duration::from_secs(10), handle.stopped()).await });
 		});
